@@ -8,17 +8,57 @@ use crate::gen::Mix;
 use crate::refchess::{attackers_on, file_of, on_board, rank_of, sq, Kind, Mv, Pc, Pos, BISHOP_D, ROOK_D};
 use serde_json::json;
 
-pub const RULE: &str = "every legal non-e.p. capture (incl. capturing promotions) of generated legal positions (tactical mix: 3-8 attackers and defenders of one square with batteries, kings as last defenders, promoted extra queens, and a long-exchange theme with up to eleven attackers a side: four knights, bishop batteries on both diagonals, doubled rooks and a queen on the file). With v = see(g, m, Eval(0)): (a) v equals the verdict for the mirrored move in the mirrored position; (b) if no enemy piece attacks the target after the capture (ray-walk attack test in the occupancy after the move, pins ignored) then v is true; (c) if value(captured) >= value(capturing piece) then v is true (100/300/300/500/900); (d) an independent swap-list minimax (least valuable attacker, x-rays re-scanned after every capture, king captures only when no enemy attacker is left, mover needs >= 0) that branches over every choice among equally valued attackers: if all branches agree v must equal that verdict, otherwise the capture is counted as tie-ambiguous and only (b),(c) are asserted. Non-trivial = capture with >= 2 attackers on each side or an x-ray attacker; distinct by (position, move).";
+pub const RULE: &str = "every legal non-e.p. capture (incl. capturing promotions) of generated legal positions (tactical mix: 3-8 attackers and defenders of one square with batteries, kings as last defenders, promoted extra queens, and a long-exchange theme with up to eleven attackers a side: four knights, bishop batteries on both diagonals, doubled rooks and a queen on the file). With v = see(g, m, Eval(0)): (a) v equals the verdict for the mirrored move in the mirrored position; (b) if no enemy piece attacks the target after the capture (ray-walk attack test in the occupancy after the move, pins ignored) then v is true; (c) if value(captured) >= value(capturing piece) then v is true (piece values read off the engine's evaluator by probing thresholds: 100/300/300/500/900 today); (d) an independent swap-list minimax (least valuable attacker, x-rays re-scanned after every capture, king captures only when no enemy attacker is left, mover needs >= 0) that branches over every choice among equally valued attackers: if all branches agree v must equal that verdict, otherwise the capture is counted as tie-ambiguous and only (b),(c) are asserted. Non-trivial = capture with >= 2 attackers on each side or an x-ray attacker; distinct by (position, move).";
 
 const SWAP_BUDGET: usize = 6_000;
 
+/// The property speaks of "the same piece values": they are read off the engine's own evaluator (the
+/// largest threshold at which a king's capture of an undefended man of that kind still passes), so a
+/// retuned value table changes the reference with it. The king's value only has to exceed all others.
 fn value(k: Kind) -> i32 {
+    static V: std::sync::OnceLock<[i32; 5]> = std::sync::OnceLock::new();
+    let v = V.get_or_init(|| {
+        let mut out = [100, 300, 300, 500, 900];
+        for (i, kind) in [Kind::P, Kind::N, Kind::B, Kind::R, Kind::Q].into_iter().enumerate() {
+            let mut p = Pos::empty();
+            p.board[crate::refchess::sq(4, 3) as usize] = Some(Pc::new(true, Kind::K));
+            p.board[crate::refchess::sq(7, 7) as usize] = Some(Pc::new(false, Kind::K));
+            // a victim next to the white king that does not attack it from there: pawn / bishop above
+            // (a black pawn attacks downwards-diagonally only), knight above, rook / queen diagonal...
+            // a rook or queen next to the king gives check, which does not matter to the evaluator
+            let vs = match kind {
+                Kind::R => crate::refchess::sq(5, 4),
+                _ => crate::refchess::sq(4, 4),
+            };
+            p.board[vs as usize] = Some(Pc::new(false, kind));
+            p.white_to_move = true;
+            let g = to_game(&p);
+            let Some(m) = p.legal_moves().into_iter().find(|m| m.from == crate::refchess::sq(4, 3) && m.to == vs) else { continue };
+            let Some(em) = find_move(&g, &m) else { continue };
+            let probe = |t: i32| catch(|| see(&g, em, Eval(t as i16))).unwrap_or(false);
+            if !probe(0) || probe(20_000) {
+                continue; // not a monotone evaluator: keep the conventional value
+            }
+            let (mut lo, mut hi) = (0, 20_000); // probe(lo) true, probe(hi) false
+            while hi - lo > 1 {
+                let mid = (lo + hi) / 2;
+                if probe(mid) {
+                    lo = mid;
+                } else {
+                    hi = mid;
+                }
+            }
+            out[i] = lo;
+        }
+        out
+    });
     match k {
-        Kind::P => 100,
-        Kind::N | Kind::B => 300,
-        Kind::R => 500,
-        Kind::Q => 900,
-        Kind::K => 10_000,
+        Kind::P => v[0],
+        Kind::N => v[1],
+        Kind::B => v[2],
+        Kind::R => v[3],
+        Kind::Q => v[4],
+        Kind::K => 1_000_000,
     }
 }
 
